@@ -238,6 +238,9 @@ impl<'a> Gen<'a> {
         let d = depth - 1;
         if self.cfg.src_forms && self.rng.chance(1, 4) {
             if let Some(e) = self.src_form(t, scope, d, pre) {
+                return e;
+            }
+        }
         if self.cfg.rich_generics && self.rng.chance(2, 5) {
             if let Some(e) = self.generic_call(t, scope, d, pre) {
                 return e;
@@ -825,7 +828,8 @@ impl<'a> Gen<'a> {
                 let in_order = order.iter().enumerate().all(|(a, b)| a == *b);
                 let mut fields = Vec::new();
                 for k in order {
-                    let mut e = self.expr(&fts[k], scope, d, pre);
+                    let mut e = if self.hit("field-type") { Self::wrong_value(&fts[k]) } else { self.expr(&fts[k], scope, d, pre) };
+                    let unknown = self.hit("unknown-field");
                     if !in_order && !self.cfg.lit_field_effects {
                         // main stream: the initialisers are evaluated by `let`s in WRITTEN order and the
                         // literal only mentions variables (the order in which a literal's own
@@ -840,21 +844,15 @@ impl<'a> Gen<'a> {
                     }
                     // shorthand `S { f0 }` when a variable of that name and type is in scope
                     // (`S { f0 }` with a single field is read as a block by the parser: needs two fields)
-                    if self.cfg.src_forms && fts.len() > 1 && e == format!("f{}", k) {
+                    if unknown {
+                        fields.push(format!("zz{}: {}", k, e));
+                    } else if self.cfg.src_forms && fts.len() > 1 && e == format!("f{}", k) {
                         self.feat("struct-lit-shorthand");
                         fields.push(format!("f{}", k));
                     } else {
                         fields.push(format!("f{}: {}", k, e));
                     }
                 }
-                let fields: Vec<String> = fts
-                    .iter()
-                    .enumerate()
-                    .map(|(k, ft)| {
-                        let v = if self.hit("field-type") { Self::wrong_value(ft) } else { self.expr(ft, scope, d, pre) };
-                        if self.hit("unknown-field") { format!("zz{}: {}", k, v) } else { format!("f{}: {}", k, v) }
-                    })
-                    .collect();
                 format!("S{} {{ {} }}", i, fields.join(", "))
             }
             T::Enum(i) => {
